@@ -36,5 +36,6 @@ def printAt (perCall : Bool) (h : Hist) (first t : Nat) : Out :=
   | .ok => ⟨x, true, none⟩
   | .absent => ⟨x, false, none⟩
   | .fails e => ⟨x, false, if Gen.printSwallows e then none else some e⟩
+  | .failsAt c e => ⟨x, c != .header, if Gen.printSwallows e then none else some e⟩
 
 end Emit.Stderr
